@@ -74,7 +74,16 @@ def extra_checks(tier, seed, active_known):
 	if fails:
 		x.violation = {'what': f'{fails[0]["case"]} ({fails[0]["where"]}) is not reported as a tranp error: {fails[0]["last_line"]}', 'function': 'rogw/tranp/implements/syntax/lark/parser.py:SyntaxParserOfLark.__load_entry', 'inputs': fails[0], 'clause': 'outcome in {ok} ∪ Errors.Error'}
 		x.finding_key = 'pipeline|syntax-boundary'
-	return [x]
+	from twins import session_errors_twin
+	n2, fails2 = session_errors_twin.run(tier, seed)
+	y = Extra(name='inside one interactive-style session every input (well-formed, ill-typed, unparsable, in any order) loads or is reported as a tranp error', kind='bounded', ok=not fails2, cases=n2,
+		bound='6 (quick) / 40 (thorough) sessions of 3-6 inputs drawn from 5 well-formed, 10 ill-typed (unknown names, missing annotations, binary / octal / imaginary literals, unknown imports / bases) and 4 unparsable sources; the statements of Interactive.rebuild_module on the real Modules / SymbolDB / parser',
+		detail=f'{len(fails2)} escaping exceptions', samples=[{'history': ['b: int = 1\na: Foo = 1\n', 'c: int = 2\n'], 'verdict': 'Errors.* then loaded'}])
+	y.distinct = n2
+	if fails2:
+		y.violation = {'what': fails2[0]['what'], 'function': 'rogw/tranp/module/modules.py / semantics/reflection/db.py / syntax/node/resolver.py (load / unload of the main module)', 'inputs': fails2[0], 'clause': 'only Errors.* escapes'}
+		y.finding_key = 'session-errors-twin'
+	return [x, y]
 
 contract(RENDER, 'ErrorRender.Quotation.__load_line', ['C07', 'C16'], types={'self': 'ErrorRender.Quotation', 'f': 'FileObj', 'lines': 'list[str]'},
 	rewrites={"open(filepath, mode='rb')": 'open_rb(filepath)', 'f.readlines()': 'file_lines(filepath)'},
@@ -106,9 +115,9 @@ def gen_load_line(rnd, tier):
 	import atexit, os, tempfile
 	if not _TMPFILES:
 		d = tempfile.mkdtemp(prefix='c07_lines_')
-		for i, text in enumerate(['a = 1\n\tb = 2\nlast', 'x\n', '\n\n', 'only']):
+		for i, text in enumerate(['a = 1\n\tb = 2\nlast', 'x\n', '\n\n', 'only', 'a = 1\n\x0c\nb = 2\nc = 3\n', 'p\rq\nr\x0bs\nt\x1cu\n', 'v\x85w\nx\u2028y\nz\n']):
 			p = os.path.join(d, f'f{i}.py')
-			open(p, 'w').write(text)
+			open(p, 'w', newline='').write(text)
 			_TMPFILES.append(p)
 		import shutil
 		atexit.register(lambda: shutil.rmtree(d, ignore_errors=True))
